@@ -356,7 +356,7 @@ class World:
         self._event(op, out, [i], extra)
         return out[0]
 
-    def _derive(self, op, f, inputs, extra=()):
+    def _derive(self, op, f, inputs, extra=(), **kw):
         try:
             c = f()
             out = ["ok"]
@@ -366,7 +366,7 @@ class World:
         if c is not None:
             self.convs.append(c)
         idxs = ([len(self.convs)] if c is not None else []) + (list(inputs) if self.probe_inputs else [])
-        self._event(op, out, list(dict.fromkeys(idxs)), extra)
+        self._event(op, out, list(dict.fromkeys(idxs)), extra, **kw)
         return out[0]
 
     def chain(self, idxs, cs=True, extra=()):
@@ -381,7 +381,16 @@ class World:
         from curies import remap_curie_prefixes, remap_uri_prefixes, rewire
         f = {"remap_curie": remap_curie_prefixes, "remap_uri": remap_uri_prefixes, "rewire": rewire}[kind]
         op = {"k": kind, "i": i, "m": [[self.I(a), self.I(b)] for a, b in pairs]}
-        return self._derive(op, lambda: f(self.convs[i - 1], dict(pairs)), [i], extra)
+        kw = {}
+        if kind in ("remap_uri", "rewire"):
+            # several synonym keys for one record: the code takes the first in LIST order, which no property
+            # fixes -> the exact post-state comparison is skipped for this event (the monitors still apply)
+            keys = {a for a, _ in pairs}
+            for r in self.convs[i - 1].records:
+                canon, syns = (r.uri_prefix, r.uri_prefix_synonyms) if kind == "remap_uri" else (r.prefix, r.prefix_synonyms)
+                if canon not in keys and sum(1 for x in set(syns) if x in keys) > 1:
+                    kw["inexact"] = True
+        return self._derive(op, lambda: f(self.convs[i - 1], dict(pairs)), [i], extra, **kw)
 
     def load(self, loader, data, delim=":", strict=True, extra=(), via="obj"):
         I = self.I
@@ -421,16 +430,14 @@ class World:
         def go():
             if via == "obj":
                 return f(obj, delimiter=delim, strict=strict)
-            import json as _json, tempfile, pathlib
-            d = tempfile.mkdtemp(prefix="load-", dir=os.environ.get("VERIF_TMP", "/verif/out"))
-            try:
-                path = os.path.join(d, "data.json")
-                with open(path, "w", encoding="utf-8") as fh:
-                    _json.dump(obj, fh, ensure_ascii=(via == "str"))
-                return f(path if via == "str" else pathlib.Path(path), delimiter=delim, strict=strict)
-            finally:
-                import shutil as _sh
-                _sh.rmtree(d, ignore_errors=True)
+            import json as _json, pathlib
+            # the SAME path is rewritten for every load of this process: load, rewrite, load again
+            d = os.path.join(os.environ.get("VERIF_TMP", "/verif/out"), f"load-{os.getpid()}")
+            os.makedirs(d, exist_ok=True)
+            path = os.path.join(d, "data.json")
+            with open(path, "w", encoding="utf-8") as fh:
+                _json.dump(obj, fh, ensure_ascii=(via == "str"))
+            return f(path if via == "str" else pathlib.Path(path), delimiter=delim, strict=strict)
         return self._derive(op, go, [], extra)
 
     def upgrade(self, pairs):
